@@ -213,8 +213,13 @@ func readOperationPack(def Definition, repo repository.RepoData, resolvers entit
 
 	// check the format version first, fail early instead of trying to read something
 	var version uint
+	versionEntries := 0
 	for _, entry := range entries {
 		if strings.HasPrefix(entry.Name, versionEntryPrefix) {
+			versionEntries++
+			if versionEntries > 1 {
+				continue
+			}
 			v, err := strconv.ParseUint(strings.TrimPrefix(entry.Name, versionEntryPrefix), 10, 64)
 			if err != nil {
 				return nil, errors.Wrap(err, "can't read format version")
@@ -223,7 +228,6 @@ func readOperationPack(def Definition, repo repository.RepoData, resolvers entit
 				return nil, fmt.Errorf("format version too big")
 			}
 			version = uint(v)
-			break
 		}
 	}
 	if version == 0 {
@@ -239,7 +243,31 @@ func readOperationPack(def Definition, repo repository.RepoData, resolvers entit
 	var createTime lamport.Time
 	var editTime lamport.Time
 
+	// A tree as written by Write() holds each of its entries once and nothing else: anything
+	// duplicated or unknown is not something we produced, refuse it instead of guessing.
+	if versionEntries > 1 {
+		return nil, fmt.Errorf("multiple format version entries in the tree")
+	}
+	seen := make(map[string]bool)
+
 	for _, entry := range entries {
+		kind := entry.Name
+		switch {
+		case strings.HasPrefix(entry.Name, versionEntryPrefix):
+			kind = versionEntryPrefix
+		case strings.HasPrefix(entry.Name, createClockEntryPrefix):
+			kind = createClockEntryPrefix
+		case strings.HasPrefix(entry.Name, editClockEntryPrefix):
+			kind = editClockEntryPrefix
+		case entry.Name == opsEntryName, entry.Name == extraEntryName:
+		default:
+			return nil, fmt.Errorf("unexpected entry %s in the tree", entry.Name)
+		}
+		if seen[kind] {
+			return nil, fmt.Errorf("multiple %s entries in the tree", kind)
+		}
+		seen[kind] = true
+
 		switch {
 		case entry.Name == opsEntryName:
 			data, err := repo.ReadData(entry.Hash)
